@@ -46,6 +46,14 @@ func main() {
 	switch os.Args[1] {
 	case "serve":
 		serve()
+	case "roles":
+		// name ↦ pattern text of every compiled package-level expression (written once, on the tree the model was written for)
+		m := map[string]string{}
+		for n, re := range allRegexes() {
+			m[n] = re.String()
+		}
+		b, _ := json.MarshalIndent(m, "", " ")
+		fmt.Println(string(b))
 	case "facts":
 		if err := facts(os.Args[2]); err != nil {
 			fmt.Fprintln(os.Stderr, "facts:", err)
@@ -261,7 +269,7 @@ func handle(req J) J {
 }
 
 func opRe(req J) J {
-	re, ok := allRegexes()[str(req, "name")]
+	re, ok := roleRegexes()[str(req, "name")]
 	if !ok {
 		return J{"err": "unknown regex"}
 	}
